@@ -585,6 +585,18 @@ def check_matnorm(ctx, model, M):
             ctx.disagree("estim.matnorm", case, got, b2f(mm))
         if mm is None:
             ctx.count("matnorm:svd-orders(numpy only)")
+    # vector norms along an axis / keepdims are forwarded unchanged (numpy is the reference)
+    for axis in (0, 1):
+        for o in (None, 1, 2, np.inf):
+            for keep in (False, True):
+                got = np.asarray(A.norm(o, axis=axis, keepdims=keep))
+                want = np.linalg.norm(M, o, axis=axis, keepdims=keep)
+                ctx.case({"what": "matnorm-axis", "shape": list(M.shape), "ord": ord_wire(o), "axis": axis, "keepdims": keep}, None)
+                ctx.count("matnorm:axis")
+                if got.shape != want.shape or not common.allclose(got, want, 16, 1e-9):
+                    ctx.violation({"kind": "failing-input", "case": {"what": "matnorm-axis", "M": str(np.asarray(M).tolist()), "ord": ord_wire(o), "axis": axis, "keepdims": keep},
+                                   "failing": {"why": "MatrixOperator.norm(axis=...) differs from numpy", "got": got.tolist(), "numpy": want.tolist()}}, True,
+                                  "estim.matnorm: property fails on the implementation")
 
 
 def diag_cases(rng, n_random):
